@@ -61,6 +61,8 @@ static void run_case(CaseCtx& c)
         default: if (rng.coin()) { load_files = true; extremes.push_back("load-grid-file-missing"); } else { write_files = true; extremes.push_back("write-grid-file"); } break;
         }
     }
+    // 30%: only the options that differ from their documented defaults are set (the constructor's defaults must be in force)
+    cfg.leave_defaults = rng.coin(0.3);
     // history: in 20% of the cases the object has been set up and solved before with another (valid) inner radius
     const bool earlier_run = rng.coin(0.2);
     const double earlier_R0 = cfg.R0 == 1e-2 ? 1e-5 : 1e-2;
@@ -72,7 +74,7 @@ static void run_case(CaseCtx& c)
     if (ext.empty())
         ext = "none";
     cfg.describe(c.obs.params);
-    c.obs.params.str("extremes", ext).b("paraview", paraview).b("earlier_setup_and_solve_on_other_R0", earlier_run);
+    c.obs.params.str("extremes", ext).b("paraview", paraview).b("earlier_setup_and_solve_on_other_R0", earlier_run).b("only_non_default_options_set", cfg.leave_defaults);
     c.obs.params.i("raw_extrapolation", raw_extrap).i("raw_cycle", raw_cycle).i("raw_fmg_cycle", raw_fmg_cycle).i("raw_norm", raw_norm).i("raw_strategy", raw_strategy);
     c.announce(ext);
 
